@@ -65,7 +65,7 @@ Proof. rewrite app_length. cbn [length]. lia. Qed.
 (* ---- the cleanup keeps the invariant and moves the limits; the current file is not touched ---- *)
 Lemma cleanup_dk c crit k w wr closed lo mid :
   numdkcfg c crit k -> dside c k (length closed) -> NumDKInv c w wr closed lo mid ->
-  exists w', cleanup_impl c w k IFNum true = (Ok tt, w') /\ same_env w w'
+  exists w', cleanup_impl c w k IFNum (Some (rname c (length closed))) = (Ok tt, w') /\ same_env w w'
     /\ NumDKInv c w' wr closed (dnew_lo k lo (length closed)) (dnew_mid k mid (length closed))
     /\ cur_view w' wr = cur_view w wr.
 Proof.
@@ -75,7 +75,7 @@ Proof.
     set (all := closed ++ [content (wfs w) (wino wr)]) in *.
     assert (Elen : length all = S (length closed)) by (unfold all; apply len_snoc).
     destruct (cleanup_numbers_d c w k n m all lo mid Hts Hsfx Ek Q W KD) as (w' & E & S & W' & KD' & SC & SR).
-    rewrite Elen in KD', SR.
+    rewrite Elen in KD', SR, E. replace (Datatypes.S (length closed) - 1) with (length closed) in E by lia.
     assert (SL : same_at (wfs w) (wfs w') (rname c (length closed))) by (apply SR; lia).
     destruct (same_at_content _ _ _ _ SL Hc) as [Lc' Ic'].
     assert (Ec : content (wfs w') (wino wr) = content (wfs w) (wino wr)) by (unfold content; rewrite Ic'; reflexivity).
@@ -200,7 +200,7 @@ Proof.
     - reflexivity. }
   assert (Hside' : dside c k (length (closed ++ [cur_view w wr]))) by (rewrite Elen; exact Hside).
   destruct (cleanup_dk c crit k w3 wr' _ _ _ Hcfg Hside' I3) as (w4 & Ecl & S4 & I4 & V4).
-  rewrite Ecl. rewrite Elen, dnew_lo_step, dnew_mid_step in I4.
+  rewrite Elen in Ecl. rewrite Ecl. rewrite Elen, dnew_lo_step, dnew_mid_step in I4.
   exists w4, wr', (reset_size_and_date w3 roll (rname c (S (length closed)))).
   split. { replace (N.of_nat (S (length closed))) with (N.of_nat (length closed) + 1)%N by lia. reflexivity. }
   split; [exact I4|].
@@ -361,10 +361,11 @@ Proof.
     - destruct (lookup (wfs w2) (cname c)) as [j|] eqn:E; [|reflexivity].
       destruct (HonD _ _ E) as (i & _ & X). symmetry in X. exfalso. exact (rname_not_cname _ _ X). }
   (* the initial cleanup *)
-  assert (Ecl : match k with KNever => (Ok tt, w2) | _ => cleanup_impl c w2 k (ns_filter (NSNumD 0)) (naming_writes_direct NNumbersDirect) end
-                = cleanup_impl c w2 k IFNum true) by (destruct k; reflexivity).
+  assert (Ecl : forall d, match k with KNever => (Ok tt, w2) | _ => cleanup_impl c w2 k (ns_filter (NSNumD 0)) (if naming_writes_direct NNumbersDirect then Some d else None) end
+                = cleanup_impl c w2 k IFNum (Some d)) by (intros d; destruct k; reflexivity).
   rewrite Ecl. clear Ecl.
-  destruct (cleanup_dk c crit k w2 wr [] 0 0 Hcfg Hside I2) as (w4 & E4 & S4 & I4 & V4). rewrite E4. cbn [bind].
+  destruct (cleanup_dk c crit k w2 wr [] 0 0 Hcfg Hside I2) as (w4 & E4 & S4 & I4 & V4). cbn [length] in E4.
+  rewrite E4. cbn [bind].
   assert (Ebg : match k with KNever => false | _ => c_bg c end = false) by (destruct k; auto).
   rewrite Ebg.
   assert (Z0 : dnew_lo k 0 (length (@nil bytes)) = 0 /\ dnew_mid k 0 (length (@nil bytes)) = 0).
